@@ -835,6 +835,66 @@ func ruleMODE3(c *Ctx) {
 		}
 	}
 	c.check(okSort, rule, "codegen.EmitLexer/modes-sorted-by-index", "", "modes() orders the modes by Index", "modes() does not order the modes by Index")
+	// ... and lists every mode: _lexerModes is positional and the push parameter is Mode.Index, which
+	// Spec.RunPass assigns densely over ALL modes, so leaving one out shifts every later table
+	okAll, whyAll := false, "the function bound to `modes` was not found"
+	for _, u := range ta.Set.Uses {
+		fl := funcLitOf(c.Prog, ta.Set.Pkg.TypesInfo, u.Binds["modes"])
+		if fl == nil {
+			continue
+		}
+		info := ta.Set.Pkg.TypesInfo
+		whyAll = "no unconditional collection of every value of context.LexerModes into the returned slice"
+		var collected types.Object
+		viaValues := false
+		ast.Inspect(fl.Body, func(m ast.Node) bool {
+			switch x := m.(type) {
+			case *ast.RangeStmt:
+				if !isField(info, x.X, "internal/codegen", "context", "LexerModes") || x.Value == nil {
+					return true
+				}
+				val := usesObj(info, x.Value)
+				// every statement of the body up to the append is unconditional
+				for _, st := range x.Body.List {
+					as, ok := st.(*ast.AssignStmt)
+					if !ok || len(as.Lhs) != 1 || len(as.Rhs) != 1 {
+						break
+					}
+					call, ok := as.Rhs[0].(*ast.CallExpr)
+					if ok && builtinName(info, call) == "append" && len(call.Args) == 2 && sameExpr(call.Args[0], as.Lhs[0]) && usesObj(info, call.Args[1]) == val && val != nil {
+						collected = usesObj(info, as.Lhs[0])
+					}
+					break
+				}
+			case *ast.CallExpr:
+				if fullName(calleeFunc(info, x)) == "maps.Values" && len(x.Args) == 1 && isField(info, x.Args[0], "internal/codegen", "context", "LexerModes") {
+					viaValues = true
+				}
+			}
+			return true
+		})
+		// what is returned
+		inspectNoLit(fl.Body, func(m ast.Node) bool {
+			rs, ok := m.(*ast.ReturnStmt)
+			if !ok || len(rs.Results) != 1 {
+				return true
+			}
+			if collected != nil && usesObj(info, rs.Results[0]) == collected {
+				okAll = true
+			}
+			if viaValues {
+				e := ast.Unparen(resolveVia(info, localDefs(info, fl), rs.Results[0]))
+				if call, ok := e.(*ast.CallExpr); ok && (fullName(calleeFunc(info, call)) == "slices.SortedFunc" || fullName(calleeFunc(info, call)) == "slices.Collect") && len(call.Args) >= 1 {
+					if inner, ok := ast.Unparen(call.Args[0]).(*ast.CallExpr); ok && fullName(calleeFunc(info, inner)) == "maps.Values" {
+						okAll = true
+					}
+				}
+			}
+			return true
+		})
+	}
+	c.check(okAll, rule, "codegen.EmitLexer/modes-lists-every-mode", "", "modes() returns every mode of context.LexerModes (unconditional collection), so position in _lexerModes = Mode.Index",
+		"modes() may leave modes out ("+whyAll+"): _lexerModes is positional while the push parameter is the Index assigned over all modes, so a push would select another mode's table or index past the end")
 }
 
 // ---- MODE-4: implicit last action ----
